@@ -65,8 +65,8 @@ func main() {
 	var runs []run
 	if r.Quick() {
 		runs = []run{
-			{hist.TestFam{WithDir: true, WithNoop: true, WithRm: true}, 2, false},
-			{hist.TestFam{WithDir: true, WithNoop: true, WithRm: true}, 2, true},
+			{hist.TestFam{WithDir: true, WithBin: true, WithNoop: true, WithRm: true}, 2, false},
+			{hist.TestFam{WithDir: true, WithBin: true, WithNoop: true, WithRm: true}, 2, true},
 		}
 	} else {
 		runs = []run{
@@ -203,12 +203,18 @@ func makeJudge(e *hist.Engine, rn run) hist.Judge {
 				if obs.Exit != 0 {
 					verdict = "fail"
 				}
-				violate(fmt.Sprintf("verdict-differs-from-fresh-run:edit=%s:incremental=%s:%s", ed.Kind, verdict, how), detail)
+				if verdict == "pass" && executed == 0 {
+					// a stale pass: name the runtime inputs in which the tree differs from the nearest executed passing run of the lineage
+					// (the root cause is an input the reuse decision did not look at, whichever edit exposed it)
+					violate("stale-pass-reused:not-executed:fresh-run-fails:inputs-differing-from-nearest-executed-passing-run="+hist.NearestDiff(sig, mem.Passed), detail)
+				} else {
+					violate(fmt.Sprintf("verdict-differs-from-fresh-run:edit=%s:incremental=%s:%s", ed.Kind, verdict, how), detail)
+				}
 			}
 		case executed == 0 && !mem.Passed[sig]:
 			reused = true
 			if !mem.Reused {
-				violate(fmt.Sprintf("result-reused-without-passing-run-for-current-inputs:edit=%s:verdict-agrees", ed.Kind), detail+"\nno executed passing run with runtime signature "+sig+" exists in this lineage")
+				violate("result-reused-without-passing-run-for-current-inputs:verdict-agrees:inputs-differing-from-nearest-executed-passing-run="+hist.NearestDiff(sig, mem.Passed), detail+"\nno executed passing run with runtime signature "+sig+" exists in this lineage")
 			}
 		}
 		mem.Wrong, mem.Reused = wrong, reused
